@@ -22,7 +22,8 @@ RULE = (
     "seeded histories: <=4 prototype contents x random construction orders (shuffled inserts, add/discard noise, overwritten "
     "scores, re-appended projects), start = as_multiprofile of a list profile | MultiProfile(init) | empty, then random "
     "append/extend/extend(profile) steps; every history runs under >=3 PYTHONHASHSEED values; non-trivial = some content "
-    "occurs >=2 times with different construction steps; distinct by history hash"
+    "occurs >=2 times with different construction steps; distinct by history hash; a second stream draws the project names from a "
+    "pool of look-alikes (differing only in case / blanks / punctuation, prefixes of each other, numeric-looking, non-ASCII, empty)"
 )
 ASSUMPTIONS = [
     "ballot content = approved set / final score mapping / ranking (first occurrences); projects are compared by name",
@@ -32,6 +33,18 @@ TRUSTED = ["CPython dict insertion order (entries are also compared as a multise
 
 NAMES = ["p%d" % i for i in range(10)] + ["a", "b", "zz", "Ab", "q17", "x_y", "proj", "P", "k9", "0"]
 SCORES = [0, 1, 2, 3, 5, F(1, 2), F(7, 3)]
+# second pool ("close" names): names that differ only in letter case, are prefixes of each other, look like numbers, differ only in
+# blanks / punctuation, or are not ASCII.  Project identity is the exact name (Project.__eq__/__hash__), so all of these are DISTINCT
+# projects; whatever canonical order the frozen classes use must be a total order on them (an order that identifies or cannot compare
+# two of them leaves them in arrival order, and equal approval sets freeze to unequal tuples).
+CLOSE_NAMES = [
+    "Park", "park", "PARK", "pArk", "parK", "Parks", "par",
+    "a", "A", "ab", "aB", "Ab", "AB", "a b", "a_b", "A_B", "a-b", "a ", " a", "",
+    "p", "p1", "P1", "p10", "p2", "p01",
+    "1", "01", "10", "2", "1.0", "-1", "1e1",
+    "\u00e9", "\u00c9", "e", "e\u0301", "\u00df", "ss", "SS", "\u0130", "i", "I", "\u0131",
+]
+POOLS = {"plain": NAMES, "close": CLOSE_NAMES}
 
 
 # ----------------------------------------------------------------------------------------------
@@ -110,12 +123,28 @@ def gen_voter_steps(rng, btype, proto, names):
     return steps
 
 
-def gen_history(rng: random.Random):
+def _close_sample(r, m):
+    """m names of the close pool, biased towards whole clusters of look-alikes (case-folded / stripped of non-alphanumerics equal)"""
+    fold = lambda n: "".join(ch for ch in n.casefold() if ch.isalnum())
+    clusters = {}
+    for n in CLOSE_NAMES:
+        clusters.setdefault(fold(n), []).append(n)
+    groups = _shuffled(r, list(clusters.values()))
+    out = []
+    for g in groups:
+        g = _shuffled(r, g)
+        out.extend(g[: r.randint(1, len(g))])
+        if len(out) >= m:
+            break
+    return _shuffled(r, out[:m])
+
+
+def gen_history(rng: random.Random, pool="plain"):
     sub = rng.getrandbits(48)
     r = random.Random(sub)
-    btype = r.choice(["app", "card", "cum", "ord"])
-    m = r.randint(1, 9)
-    names = r.sample(NAMES, m)
+    btype = r.choice(["app", "card", "cum", "ord"]) if pool == "plain" else r.choice(["app", "app", "app", "card", "cum", "ord"])
+    m = r.randint(1, 9) if pool == "plain" else r.randint(2, 9)
+    names = r.sample(NAMES, m) if pool == "plain" else _close_sample(r, m)
     k = r.randint(1, 4)
     protos = []
     for _ in range(k):
@@ -157,7 +186,10 @@ def gen_history(rng: random.Random):
             j = r.randint(i, n)  # possibly an empty extend
             ops.append({"op": r.choice(["extend", "extend_frozen", "extend_profile"]), "voters": list(range(i, j))})
             i = j
-    return {"btype": btype, "names": names, "voters": voters, "start": {"kind": kind, "n": n0}, "ops": ops, "seed": sub}
+    h = {"btype": btype, "names": names, "voters": voters, "start": {"kind": kind, "n": n0}, "ops": ops, "seed": sub}
+    if pool != "plain":
+        h["pool"] = pool
+    return h
 
 
 # ----------------------------------------------------------------------------------------------
@@ -503,6 +535,11 @@ def run_batch(ctx, histories, seeds, compare=True):
     model = core.run_driver([model_line(h) for h in histories]) if compare else [None] * len(histories)
     for idx, h in enumerate(histories):
         ctx.count("btype", h["btype"])
+        ctx.count("name_pool", h.get("pool", "plain"))
+        if len({n.casefold() for n in h["names"]}) < len(h["names"]):
+            ctx.count("names", "two names differ only in case")
+        if any(a != b and b.startswith(a) for a in h["names"] for b in h["names"]):
+            ctx.count("names", "one name is a prefix of another")
         ctx.count("start", h["start"]["kind"])
         ctx.count("voters", str(len(h["voters"])))
         for op in h["ops"]:
@@ -556,6 +593,8 @@ def run(ctx):
     seeds = pick_seeds(ctx.rng, ctx.scale(3, 5))
     ctx.extra["hash_seeds"] = seeds
     histories = [gen_history(ctx.rng) for _ in range(n)]
+    # same histories over the pool of look-alike names (drawn after the plain ones: their stream is unchanged)
+    histories += [gen_history(ctx.rng, pool="close") for _ in range(ctx.scale(600, 3000))]
     run_batch(ctx, histories, seeds)
     dedupe(ctx)
 
@@ -563,7 +602,7 @@ def run(ctx):
 def search(ctx, disagreements):
     ctx.rule = RULE
     seeds = pick_seeds(ctx.rng, 3)
-    histories = [gen_history(ctx.rng) for _ in range(3000)]
+    histories = [gen_history(ctx.rng) for _ in range(3000)] + [gen_history(ctx.rng, pool="close") for _ in range(1000)]
     run_batch(ctx, histories, seeds, compare=False)
     dedupe(ctx)
 
